@@ -12,6 +12,7 @@ import (
 	"os"
 	"sort"
 	"strconv"
+	"strings"
 	"time"
 
 	"verif/harness/drv"
@@ -86,7 +87,9 @@ const maxFailures = 20
 func (c *Ctx) RunCases(cases []Case) {
 	var reqs []string
 	for _, cs := range cases {
-		reqs = append(reqs, cs.Reqs...)
+		for _, r := range cs.Reqs {
+			reqs = append(reqs, strings.TrimPrefix(r, "?"))
+		}
 		reqs = append(reqs, cs.Spec...)
 	}
 	replies, err := drv.Run(reqs)
@@ -113,6 +116,19 @@ func (c *Ctx) RunCases(cases []Case) {
 		for j, rq := range cs.Reqs {
 			got := replies[i]
 			i++
+			if strings.HasPrefix(rq, "?") { // a Spec evaluation placed inside the sequence
+				if got == "bad-op" {
+					fmt.Fprintf(os.Stderr, "corr: driver answered bad-op to %q\n", rq)
+					os.Exit(3)
+				}
+				if got != "ok" {
+					if len(c.Res.SpecFailures) < maxFailures {
+						c.Res.SpecFailures = append(c.Res.SpecFailures, Failure{Kind: "spec", Desc: cs.Desc + fmt.Sprintf(" [step %d]", j), Sig: cs.Sig, Req: rq, Model: got, Impl: "(spec evaluated on implementation output)", Replay: cs.Replay})
+					}
+					c.Dist("spec-fail")
+				}
+				continue
+			}
 			if j < len(cs.Impl) && cs.Impl[j] != "*" && cs.Impl[j] != got {
 				if len(c.Res.Mismatches) < maxFailures {
 					c.Res.Mismatches = append(c.Res.Mismatches, Failure{Kind: "mismatch", Desc: cs.Desc, Sig: cs.Sig, Req: rq, Model: got, Impl: cs.Impl[j], Replay: cs.Replay})
